@@ -368,7 +368,6 @@ def cases(tier, seed):
         out.append(make_extreme_bn(rng, gen_bn(rng, 5, 200)))
         out.append(make_extreme_mn(rng, gen_mn(rng, 4)))
     # the torch backend for a share of the single-query, primitive and session cases
-    pre_torch = len(out)
     for c in out:
         if c["kind"] in ("bn", "mn", "prim", "session") and rng.random() < 0.12:
             c["torch"] = True
@@ -1837,6 +1836,8 @@ def run_case(case, drv):
             del c2["torch"]
             out = run_case(c2, drv)
             out.setdefault("tags", []).append("backend=torch")
+            if case.get("f32"):
+                out["tags"].append("float32-construction finding %s" % ("NO LONGER reproduces" if out["ok"] else "reproduces"))
             if not out["ok"] and out.get("finding") is None and not_float32_exact(case):
                 # diagnosed class (reported; listed or repaired by the coordinator): under the torch backend the
                 # DiscreteFactor / TabularCPD constructors pass the values through torch.Tensor(values), i.e. float32,
